@@ -8,22 +8,44 @@ let n = n_of_hex
 let nat s = nat_of_int (int_of_string ("0x" ^ s))
 
 (* ---- component: frame (C12) ---------------------------------------------
-   crc <body>                       CRC-32 of the body
-   frame <body>                     body ++ le32 (crc32 body)
+   crc <type> <body>                CRC-32 of the body
+   frame <type> <body>              body ++ le32 (crc32 body)
    using <type> <fixed> <bytes>     DataView::<type>::using(bytes): ok | err
    flip <type> <fixed> <i> <bytes>  using after flipping bit i of bytes
-   rpc <type> <fixed> <bytes>       bytes sent as a request: handled | invalid
+   rpc <type> <fixed> <bytes>       bytes sent as a request to an echoing handler:
+                                    handled | invalid <status code>
+   echo <type> <fixed> <frame>      the value in <frame> sent through the typed client:
+                                    handled <seen same|diff> <reply same|diff>
+   status <code> <message>          a handler failing with that status: err <code> <message>
    lusing <fixed> <bytes>           the pre-repair using: ok | err | oob
    (the type token only tells the Rust executor which message type to use)   *)
 let run_frame (toks : string list) : string =
   match toks with
-  | [ "crc"; b ] -> h (Model.crc32 (bytes_of_hex b))
-  | [ "frame"; b ] -> hex_of_bytes (Model.frame (bytes_of_hex b))
+  | [ "crc"; _; b ] -> h (Model.crc32 (bytes_of_hex b))
+  | [ "frame"; _; b ] -> hex_of_bytes (Model.frame (bytes_of_hex b))
   | [ "using"; _; fixed; bs ] -> show_outcome (Model.view_using (nat fixed) (bytes_of_hex bs))
   | [ "flip"; _; fixed; i; bs ] ->
     show_outcome (Model.view_using (nat fixed) (Model.flip (n i) (bytes_of_hex bs)))
   | [ "rpc"; _; fixed; bs ] ->
-    if Model.using_ok (nat fixed) (bytes_of_hex bs) then "handled" else "invalid"
+    (match Model.model_echo (nat fixed) (bytes_of_hex bs) with
+     | ([ _ ], Model.Inl _) -> "handled"
+     | ([], Model.Inr (c, _)) -> "invalid " ^ h c
+     | _ -> "?unexpected")
+  | [ "echo"; _; fixed; bs ] ->
+    let req = bytes_of_hex bs in
+    let same a b = if a = b then "same" else "diff" in
+    (match Model.model_echo (nat fixed) req with
+     | ([ seen ], Model.Inl reply) ->
+       (* the body the request carries is what precedes its four trailer bytes *)
+       let keep = List.length req - 4 in
+       let body = List.filteri (fun i _ -> i < keep) req in
+       "handled " ^ same seen body ^ " " ^ same reply body
+     | ([], Model.Inr (c, _)) -> "invalid " ^ h c
+     | _ -> "?unexpected")
+  | [ "status"; code; msg ] ->
+    (match Model.model_status (n code) (bytes_of_hex msg) with
+     | Model.Inr (c, m) -> "err " ^ h c ^ " " ^ hex_of_bytes m
+     | Model.Inl _ -> "?reply")
   | [ "lusing"; fixed; bs ] -> show_outcome (Model.legacy_using (nat fixed) (bytes_of_hex bs))
   | _ -> "?bad-case"
 
